@@ -134,7 +134,9 @@ namespace hs
                     buckets = small ? mx : mx - 8 + 1;
                 auto real_max = lg ? (std::size_t(1) << (buckets - 1 + (small ? 0 : 3))) : mx;
                 want = 64 * buckets + 2 * buckets * (real_max + 16) + 64 + r.below(small_blocks ? 256 : 2048);
-                want = round16(want);
+                // (mostly a multiple of 16; sometimes not, so that the end of the block is not max-aligned)
+                if (!r.chance(1, 3))
+                    want = round16(want);
             }
             else if (has(sut, "stack."))
             {
@@ -514,6 +516,12 @@ namespace hs
                 {
                     p.add("fill", {obj(), fam});
                     ++live;
+                    break;
+                }
+                if (is_coll && r.chance(1, 40))
+                {
+                    p.add("drain", {(long long)(obj() + 2 * r.below(600)), (long long)r.below(2)});
+                    live += 20;
                     break;
                 }
                 if ((is_pool || is_coll) && r.chance(1, 10))
